@@ -23,7 +23,7 @@ from __future__ import annotations
 import ast
 
 from ..model import AnchorError, norm, walk_no_nested
-from ..runstate import Explorer, CONTROL, show, sd, CALL_MODEL
+from ..runstate import Explorer, Explorers, CONTROL, show, sd, CALL_MODEL
 from ..util import call_attr
 
 EXPLANATION = __doc__
@@ -119,7 +119,10 @@ def run(ctx) -> None:
     # same state, executed in the order the extracted policy gives) - together with a same-named request from the method
     # a command can complete within one tick and a request queued behind it runs after the run has ended
     ctx.rule("R06d", "state invariant with two user requests accepted between two ticks")
-    ex2 = Explorer(ctx, faults=False, track=(), max_pending=2)
+    # coarse scheduler (commands may stall) with two requests per gap, and the exact scheduler of execute_commands with two
+    # (quick) or three (thorough) requests per gap
+    ex2 = Explorers(Explorer(ctx, faults=False, track=(), max_pending=2),
+                    Explorer(ctx, faults=False, track=(), max_pending=3 if ctx.tier == "thorough" else 2, exact=True))
     ex2.explore()
     ctx.extra["states_two_requests"] = len(ex2.reach)
     bad2 = {}
